@@ -331,9 +331,12 @@ END = b'<!--XSUPERVISOR:END-->'
 PHASES = ('normal', 'capture', 'partial_begin', 'partial_end', 'eof_held')
 PHASE_OPS = ('reopen', 'removelogs', 'rpc_clear', 'move_reopen', 'move_removelogs', 'move_rpc_clear', 'disp_reopen',
              'disp_removelogs', 'move_disp_reopen', 'sigusr2', 'move_sigusr2', 'move_sigusr2_restarting',
-             'move_sigusr2_shutdown', 'rpc_clear_all', 'move_rpc_clear_all', 'group_removelogs', 'move_group_reopen')
+             'move_sigusr2_shutdown', 'rpc_clear_all', 'move_rpc_clear_all', 'group_removelogs', 'move_group_reopen',
+             # the same for a process in state UNKNOWN (a stop whose kill() failed: child alive, pipes and logs open)
+             'move_sigusr2_unknown', 'move_group_reopen_unknown', 'move_reopen_unknown')
 # after EOF only reopen-type operations make sense before the reap
-EOF_OPS = ('move_reopen', 'move_sigusr2', 'move_sigusr2_shutdown', 'move_group_reopen', 'move_disp_reopen', 'reopen')
+EOF_OPS = ('move_reopen', 'move_sigusr2', 'move_sigusr2_shutdown', 'move_group_reopen', 'move_disp_reopen', 'reopen',
+           'move_sigusr2_unknown')
 
 
 class _Recorder(object):
@@ -351,7 +354,7 @@ class _Recorder(object):
         pass
 
 
-def make_capture_rig(wd, mb, bk, syslog=False, tag='cap'):
+def make_capture_rig(wd, mb, bk, syslog=False, listener=False, tag='cap'):
     """A real ProcessGroup / Subprocess whose stdout and stderr POutputDispatchers both have a log
     file (separate directories) AND capture mode enabled (and, with `syslog`, a SyslogHandler
     next to the file handler), under a real Supervisor and the real RPC namespace."""
@@ -359,7 +362,7 @@ def make_capture_rig(wd, mb, bk, syslog=False, tag='cap'):
     from supervisor.options import ServerOptions, ProcessConfig, ProcessGroupConfig
     from supervisor.process import ProcessGroup
     from supervisor.supervisord import Supervisor
-    from supervisor.dispatchers import POutputDispatcher
+    from supervisor.dispatchers import POutputDispatcher, PEventListenerDispatcher
     from supervisor import events, rpcinterface, states, loggers
     d = os.path.join(wd, tag)
     shutil.rmtree(d, ignore_errors=True)
@@ -393,10 +396,15 @@ def make_capture_rig(wd, mb, bk, syslog=False, tag='cap'):
     proc.laststart = 1
     proc.dispatchers = {5: POutputDispatcher(proc, events.ProcessCommunicationStdoutEvent, 5),
                         7: POutputDispatcher(proc, events.ProcessCommunicationStderrEvent, 7)}
+    if listener:
+        # an event listener: its stdout is read by a PEventListenerDispatcher with a log of its own
+        for h in proc.dispatchers[5].normallog.handlers:
+            h.close()
+        proc.dispatchers[5] = PEventListenerDispatcher(proc, 'stdout', 5)
     timeline = []
     filehandlers = {}
     for fd, ch in ((5, 'stdout'), (7, 'stderr')):
-        nl = proc.dispatchers[fd].normallog
+        nl = getattr(proc.dispatchers[fd], 'normallog', None) or proc.dispatchers[fd].childlog
         for h in nl.handlers:
             if isinstance(h, loggers.SyslogHandler):
                 h._syslog = lambda msg: None                     # never talk to the real syslog
@@ -465,13 +473,13 @@ def capture_script(phase, opname, channel, cont, marker):
     return steps
 
 
-def run_capture_script(R, wd, mb, bk, steps, syslog=False):
+def run_capture_script(R, wd, mb, bk, steps, syslog=False, listener=False):
     """Returns (events [(('w', ch, bytes) | ('rm', ch) | ('r', ch) | ('d', ch)), snapshots or None],
     final snapshots, problems, tolerated exceptions)."""
     import shutil
     import signal
     from supervisor import states
-    d, bases, proc, feed, iface, timeline = make_capture_rig(wd, mb, bk, syslog=syslog)
+    d, bases, proc, feed, iface, timeline = make_capture_rig(wd, mb, bk, syslog=syslog, listener=listener)
     fds = {'stdout': 5, 'stderr': 7}
     out = []
     problems = []
@@ -511,6 +519,10 @@ def run_capture_script(R, wd, mb, bk, steps, syslog=False):
                                 timeline.append(('d', c2))
                             drain(snaps())
                             name = name[5:]
+                        if name.endswith('_unknown'):
+                            from supervisor.states import ProcessStates
+                            proc.state = ProcessStates.UNKNOWN
+                            name = name[:-8]
                         expect = [ch] if name.startswith('disp_') else list(bases)
                         clearing = name in ('removelogs', 'rpc_clear', 'rpc_clear_all', 'group_removelogs', 'disp_removelogs')
                         try:
@@ -1061,6 +1073,108 @@ def outage_stream(chk, R, wd):
     return n_scripts
 
 
+
+# ---- stream 9: a rotation that cannot be done (a backup name occupied by a directory)
+
+def blocked_stream(chk, R, wd):
+    """backups = N, <path>.N replaced by a directory: os.remove() on it raises (EISDIR / EPERM), the first
+    step of doRollover fails.  The write must be kept, nothing may come out of the logging call, the
+    dispatcher keeps reading, and once the directory is gone rotation resumes."""
+    import shutil
+    from supervisor import loggers
+    cases, meta = [], []
+    n_scripts = 0
+    for (mb, bk) in ((10, 1), (30, 1), (10, 2)):
+        for level in ('handler', 'dispatcher'):
+            for nblocked in (1, 3):
+                n_scripts += 1
+                d = os.path.join(wd, 'blocked')
+                shutil.rmtree(d, ignore_errors=True)
+                os.makedirs(d)
+                hist, problems = [], []
+                gen = R.Bytes()
+                if level == 'handler':
+                    base = os.path.join(d, 'log')
+                    lg = loggers.getLogger()
+                    loggers.handle_file(lg, base, '%(message)s', rotating=True, maxbytes=mb, backups=bk)
+
+                    def write(b):
+                        lg.info(bytes(b))
+                    closers = lg.handlers
+                    alive = lambda: True
+                else:
+                    d2, base, proc, feed, iface = make_dispatcher_rig(d, mb, bk, False, tag='sub')
+
+                    def write(b):
+                        feed[5] = bytes(b)
+                        proc.dispatchers[5].handle_read_event()
+                    closers = [h for disp in proc.dispatchers.values() for h in disp.normallog.handlers]
+                    alive = lambda: proc.dispatchers[5].readable()
+                logdir = os.path.dirname(base)
+                blocker = '%s.%d' % (base, bk)
+
+                def snap():
+                    return R.snapshot(logdir, base)
+                try:
+                    with R.quiet_stderr():
+                        # fill the backups so that the next rotation has to replace <path>.N
+                        for _ in range(bk + 1):
+                            m = list(gen.take(mb + 2))
+                            write(m)
+                            hist.append((('w', m), snap()))
+                        if os.path.exists(blocker):
+                            os.remove(blocker)
+                        os.mkdir(blocker)
+                        hist.append((('d', bk), snap()))
+                        for _ in range(nblocked):
+                            m = list(gen.take(mb + 1))
+                            try:
+                                write(m)
+                            except Exception as e:
+                                problems.append('a rotation that could not be done raised out of the logging call: %r' % (e,))
+                                break
+                            hist.append((('wb', m), snap()))
+                            if not alive():
+                                problems.append('the dispatcher stopped reading after a failed rotation')
+                                break
+                        if not problems:
+                            os.rmdir(blocker)
+                            m = list(gen.take(3))
+                            write(m)
+                            s_ = snap()
+                            hist.append((('w', m), s_))
+                            cat = b''.join(s_[i] for i in sorted(s_, reverse=True)) if isinstance(s_, dict) else b''
+                            if bytes(m) not in cat:
+                                problems.append('output logged after the failed rotations is not in the files at the configured path')
+                except Exception as e:
+                    problems.append('exception: %r' % (e,))
+                finally:
+                    with R.quiet_stderr():
+                        for h in closers:
+                            try:
+                                h.close()
+                            except Exception:
+                                pass
+                chk.dist('blocked_rotation:%s' % level)
+                for pr in problems[:1]:
+                    chk.violation(_j({'kind': 'C19 fails on the implementation (rotation blocked)', 'what': pr, 'level': level,
+                                      'maxbytes': mb, 'backups': bk, 'blocked_writes': nblocked,
+                                      'history': [[list(o), sn] for o, sn in hist]}))
+                cases.append('(%d,%d,[%s])' % (mb, bk, ';'.join(
+                    '(%s,%s)' % ('(WB %s)' % zl(o[1]) if o[0] == 'wb' else op_term(o),
+                                 'Some (%s)' % snap_term(sn) if isinstance(sn, dict) else 'None') for o, sn in hist)))
+                meta.append((level, mb, bk, nblocked))
+                shutil.rmtree(d, ignore_errors=True)
+    bad, errs = vlib.coq_compare(IMPORTS, 'Z * Z * list (op * option snap)', 'check_history_opt', cases, wd,
+                                 tag='blocked', shard=60, preamble=PRE)
+    for e in errs:
+        chk.violation({'kind': 'model evaluation failed', 'part': 'blocked rotation', 'error': e}, nofail=True)
+    for i in bad[:5]:
+        chk.violation(_j({'kind': 'model and implementation disagree', 'part': 'rotation blocked by a directory',
+                          'case': meta[i], 'coq_case': cases[i][:3000]}), nofail=True)
+    return n_scripts
+
+
 # ------------------------------------------------------------------- the run
 
 WITNESS = dict(n=2, mb=10, bk=2, sizes=[4] * 12)      # DESIGN: alternating 4-byte writes
@@ -1275,25 +1389,30 @@ def _run(chk, wd, proved):
             for opname in (EOF_OPS if phase == 'eof_held' else PHASE_OPS):
                 for channel in ('stdout', 'stderr'):
                     for cont in ((0,) if phase == 'eof_held' else (0, 1)):
-                        plan.append((mb, bk, phase, opname, channel, cont, False))
+                        plan.append((mb, bk, phase, opname, channel, cont, 'plain'))
                     # the same with a SyslogHandler next to the file handler (stdout_syslog / stderr_syslog = true)
                     if phase in ('normal', 'capture', 'eof_held'):
-                        plan.append((mb, bk, phase, opname, channel, 0, True))
+                        plan.append((mb, bk, phase, opname, channel, 0, 'syslog'))
+                    # and for an event listener (PEventListenerDispatcher on stdout, POutputDispatcher on stderr)
+                    if phase == 'normal':
+                        plan.append((mb, bk, phase, opname, channel, 0, 'listener'))
     n_tolerated = 0
     if True:
         if True:
             if True:
                 if True:
-                    for (mb, bk, phase, opname, channel, cont, syslog) in plan:
+                    for (mb, bk, phase, opname, channel, cont, rigkind) in plan:
+                        syslog = (rigkind == 'syslog')
                         n_scripts += 1
                         if phase == 'eof_held':
                             marker = b'held:' + hashlib.sha1(repr((mb, bk, opname, channel, syslog)).encode()).hexdigest()[:14].encode()
                         else:
                             marker = (b'MARK-%s-%s-%s-%d-' % (phase.encode(), opname.encode(), channel.encode(), cont)) + b'#' * 12
                         steps = capture_script(phase, opname, channel, cont, marker)
-                        out, final, problems, tolerated = run_capture_script(R, wd, mb, bk, steps, syslog=syslog)
+                        out, final, problems, tolerated = run_capture_script(R, wd, mb, bk, steps, syslog=syslog,
+                                                                             listener=(rigkind == 'listener'))
                         n_tolerated += len(tolerated)
-                        chk.dist('capture_syslog:%s' % syslog)
+                        chk.dist('capture_rig:%s' % rigkind)
                         chk.dist('capture_phase:%s' % phase)
                         chk.dist('capture_op:%s' % opname)
                         # the property, on the implementation: what is logged after the operation is in the
@@ -1318,7 +1437,7 @@ def _run(chk, wd, proved):
                         for pr, _c in problems[:1]:
                             chk.violation(_j({'kind': 'C19 fails on the implementation (capturing dispatcher)', 'what': pr,
                                               'maxbytes': mb, 'backups': bk, 'phase': phase, 'operation': opname,
-                                              'channel': channel, 'syslog_handler': syslog, 'steps': [list(x) for x in steps],
+                                              'channel': channel, 'rig': rigkind, 'steps': [list(x) for x in steps],
                                               'events': [[list(ev), sn] for ev, sn in out]}))
                         for ch in ('stdout', 'stderr'):
                             ccases.append('(%d,%d,%s)' % (mb, bk, capture_history_terms(out, ch)))
@@ -1337,6 +1456,7 @@ def _run(chk, wd, proved):
     n_conf = config_stream(chk, R, wd)
     n_act_scripts, n_act = activity_stream(chk, R, wd)
     n_outage = outage_stream(chk, R, wd)
+    n_outage += blocked_stream(chk, R, wd)
     chk.note('t_config_activity_outage_done=%.1f' % (__import__('time').time() - chk.t0))
     if shared_hits:
         chk.known_finding('C19-shared', 'more than one rotating handler on one path (stdout and stderr, or two logs, configured '
